@@ -43,8 +43,9 @@ def r1(ctx):
     ctx.check('encode_cookie|primary-is-index', len(ix) == 1 and S(e.call_args(ix[0])[1]) == '(self.primary as usize)', 'encode_cookie indexes keys with %s' %
               [S(e.call_args(c)[1]) for c in ix], sample=[S(e.call_args(c)[1]) for c in ix])
     lit = one(b.aggregates(r'keyset::KeySet$'), 'KeySet literal in load')
-    f = {k: N(b.operand_term(o)) for k, o in zip(lit.data['rv']['fields'], lit.data['rv']['ops'])}
-    ctx.check('load|fields-from-header', f == {'keys': 'keys', 'id_offset': 'id_offset', 'primary': 'primary'}, 'loaded key set built from %s' % f, lit.where(), sample=f)
+    f = {k: S(b.operand_term(o)) for k, o in zip(lit.data['rv']['fields'], lit.data['rv']['ops'])}
+    ok = f.get('id_offset') == hdr(b, 8, 12) and f.get('primary') == hdr(b, 12, 16) and re.match(r'^Vec::(new|with_capacity)\(', f.get('keys', '')) is not None
+    ctx.check('load|fields-from-header', ok, 'loaded key set built from %s' % {k: v[:80] for k, v in f.items()}, lit.where(), sample={k: v[:60] for k, v in f.items()})
 
 
 def r2(ctx):
@@ -62,16 +63,17 @@ def r2(ctx):
         # the result is propagated with `?`
         ctx.check('load|%s|propagated' % site_desc(b, r), any(f.kind == 'is' and 'Read::read_exact' in S(f.term) for (s0, d0, fs) in b.edges() if fs for f in fs),
                   'read_exact result is not checked', r.where())
-    rng = [S(b.rvalue_term(s.data['rv'])) for s in b.aggregates(r'::Range$') if 'len' in N(b.rvalue_term(s.data['rv']))]
+    # the range the key loop iterates over: the Range literal handed to into_iter (not the constant sub-slice ranges of the header parsing)
+    rng = [S(x.call_args(c)[0]) for x in [b] for c in b.calls(r'IntoIterator::into_iter$|::into_iter$') if S(b.call_args(c)[0]).startswith('Range{')]
     ctx.check('load|loop-range', rng == ['Range{start: 0, end: ' + hdr(b, 16, 20) + '}'], 'key loop range is %s' % rng, sample=rng)
     push = one(b.calls(r'Vec::push$'), 'keys.push')
     ctx.guard(b, push, 'in-loop', fact_is(r'range::next\(|::next\(', 'Some'), key='load|push|in-loop')
     ctx.check('load|push-after-read', blocks_must_pass_block(b, push.bb, [r.bb for r in rex if 'end: 64' in S(b.call_args(r)[1])]) , 'a key is pushed without reading 64 bytes', push.where())
-    names = {}
-    for nm, (a, e) in {'id_offset': (8, 12), 'primary': (12, 16), 'len': (16, 20)}.items():
-        li = one([i for i, l in enumerate(b.locals) if l.get('name') == nm], 'local ' + nm)
-        names[nm] = S(b.local_term(li))
-        ctx.check('load|%s|offset' % nm, names[nm] == hdr(b, a, e), '%s parsed as `%s`' % (nm, names[nm]), sample=names[nm])
+    # every header field is parsed from its own byte range (checked through the values that use them: the KeySet literal in R1 and the loop range above)
+    lit = one(b.aggregates(r'keyset::KeySet$'), 'KeySet literal in load')
+    f = {k: S(b.operand_term(o)) for k, o in zip(lit.data['rv']['fields'], lit.data['rv']['ops'])}
+    for nm, (a, e) in {'id_offset': (8, 12), 'primary': (12, 16)}.items():
+        ctx.check('load|%s|offset' % nm, f.get(nm) == hdr(b, a, e), '%s parsed as `%s`' % (nm, f.get(nm, '')[:120]), sample=f.get(nm, '')[:80])
 
 
 def r3(ctx):
